@@ -18,6 +18,39 @@ VAR = "ctpg::regex::regex_parser::regex_parser_object"
 PATH = os.path.join(golden.GOLDEN_DIR, "regex_grammar.json")
 
 
+def _functors(u, cn, root):
+    """[(text to abstract, summary)] for the user-written functors inside `root`: lambdas, and objects / temporaries of a
+    class of namespace ctpg::regex with a call operator (a named function object is the same functor as the lambda it
+    replaces). Library helpers (ftors::_e2, val, ...) and plain functions keep their names."""
+    out = []
+    for x in walk(root):
+        f = None
+        if x.get("k") == "LambdaExpr":
+            f = u.by_id.get(x.get("fn"))
+            if f is not None and f.is_pattern:
+                inst = [g for g in u.fns if g.o.get("pid") == x.get("fn") and not g.is_pattern]
+                f = inst[0] if inst else None
+            if f is None or f.body is None:
+                raise AnalysisIncomplete("REGEXGRAM: a functor of the pattern grammar has no instantiated body")
+        elif x.get("k") in ("CXXConstructExpr", "CXXTemporaryObjectExpr", "InitListExpr", "DeclRefExpr"):
+            t = u.TC(x.get("t")).replace("const ", "").strip()
+            if t.startswith("ctpg::regex::") and "<" not in t and "(" not in t:
+                cands = [g for g in u.fns if g.o["q"] == t + "::operator()" and not g.is_pattern and g.body is not None]
+                if cands:
+                    f = cands[0]
+        if f is not None:
+            conds, _ = golden.summarise(f)
+            out.append((cn.c(x), golden.to_json(conds)))
+    return out
+
+
+def _abstract(text, functors):
+    for t, _s in functors:
+        if t and t in text:
+            text = text.replace(t, "<functor>", 1)
+    return text.replace("<lambda>", "<functor>")
+
+
 def extract(fx):
     for u, v in fx.vars():
         if v["q"] == VAR and v.get("init") is not None:
@@ -37,19 +70,8 @@ def extract(fx):
            "nterms": sorted(cn.c(a) for a in A.call_args(calls["nterms"])),
            "rules": {}, "loc": v.get("l")}
     for a in A.call_args(calls["rules"]):
-        text = cn.c(a)
-        lams = []
-        for x in walk(a):
-            if x.get("k") == "LambdaExpr":
-                f = u.by_id.get(x.get("fn"))
-                if f is not None and f.is_pattern:
-                    inst = [g for g in u.fns if g.o.get("pid") == x.get("fn") and not g.is_pattern]
-                    f = inst[0] if inst else None
-                if f is None or f.body is None:
-                    raise AnalysisIncomplete("REGEXGRAM: functor of rule %s has no instantiated body" % text[:60])
-                conds, _ = golden.summarise(f)
-                lams.append(golden.to_json(conds))
-        out["rules"][text] = lams
+        fs = _functors(u, cn, a)
+        out["rules"][_abstract(cn.c(a), fs)] = [s_ for _t, s_ in fs]
     import re as _re
     out["lexer"] = sorted({m for n in walk(v["init"]) for m in _re.findall(r"use_lexer<([^<>]*)>", u.T(n.get("t") or 0))})
     # the two custom terms of the grammar: name and functor
@@ -60,17 +82,8 @@ def extract(fx):
             p2 = Fn({"params": [], "body": v2["init"], "q": v2["q"], "n": v2["n"], "id": -2, "tmpl": "inst", "l": v2.get("l")},
                     u2, u2.tu)
             c2 = Canon(p2, uniform=True)
-            lams = []
-            for x in walk(v2["init"]):
-                if x.get("k") == "LambdaExpr":
-                    f = u2.by_id.get(x.get("fn"))
-                    if f is not None and f.is_pattern:
-                        inst = [g for g in u2.fns if g.o.get("pid") == x.get("fn") and not g.is_pattern]
-                        f = inst[0] if inst else None
-                    if f is not None and f.body is not None:
-                        conds, _ = golden.summarise(f)
-                        lams.append(golden.to_json(conds))
-            out["custom_terms"][v2["q"]] = {"init": c2.c(v2["init"]), "functors": lams}
+            fs = _functors(u2, c2, v2["init"])
+            out["custom_terms"][v2["q"]] = {"init": _abstract(c2.c(v2["init"]), fs), "functors": [s_ for _t, s_ in fs]}
     return out
 
 
